@@ -229,4 +229,10 @@ example : Store.Consistent (Store.s3 exCfg exBucket) := by
 example : ∀ r ∈ exSaved, jsonNativeFields r.md = true := by decide
 example : list exEnv (Store.mem exSaved) "Op" [("a", .num 1 0)] none false = .ok ["Op/u1"] := by rfl
 
+/-- **The limit test of the code as it stands** (atoms regenerated from `iter_recording_ids` of the in-memory and the file
+based cassette on every run): `limit is not None`, so a limit of 0 means "nothing", as on S3. -/
+theorem C10_limit_test_as_in_source (lim : Option Nat) :
+    PlaybackModel.Source.memLimitTest.limit lim = lim ∧ PlaybackModel.Source.fileLimitTest.limit lim = lim := by
+  simp [PlaybackModel.Source.memLimitTest, PlaybackModel.Source.fileLimitTest, PlaybackModel.Atoms.NoneTest.limit]
+
 end Properties.C10
